@@ -848,6 +848,21 @@ func (e *Engine) anchorInLoop(fn *ssa.Function, anchor string, li *loopInfo) boo
 func (e *Engine) runAts(st *State, in ssa.Instruction, after bool) {
 	fr := st.top()
 	c := fr.contract
+	evalFr := fr
+	prefix := ""
+	if c == nil && fr.fn.Parent() != nil && e.unit.Fn != nil && len(st.frames) > 1 {
+		// an inlined closure of the function under contract: anchors are written "$k:<anchor>"
+		// and evaluated in the scope of the enclosing function
+		root := fr.fn
+		for root.Parent() != nil {
+			root = root.Parent()
+		}
+		if root == e.unit.Fn {
+			c = e.unit.C
+			evalFr = st.frames[0]
+			prefix = strings.TrimPrefix(fr.fn.Name(), root.Name()) + "/"
+		}
+	}
 	if c == nil || len(c.Ats) == 0 {
 		return
 	}
@@ -855,6 +870,7 @@ func (e *Engine) runAts(st *State, in ssa.Instruction, after bool) {
 	if !ok {
 		return
 	}
+	name = prefix + name
 	for _, at := range c.Ats {
 		a := at.Anchor
 		isAfter := strings.HasPrefix(a, "after ")
@@ -865,7 +881,18 @@ func (e *Engine) runAts(st *State, in ssa.Instruction, after bool) {
 		if a != name && !(strings.HasSuffix(name, "#1") && strings.TrimSuffix(name, "#1") == a) {
 			continue
 		}
-		env := e.envFor(st, fr, st.old)
+		env := e.envFor(st, evalFr, st.old)
+		if ci, ok := in.(ssa.CallInstruction); ok {
+			for _, a := range ci.Common().Args {
+				if r, ok := fr.regs[a]; ok {
+					env.callArgs = append(env.callArgs, r)
+				} else if c, ok := a.(*ssa.Const); ok {
+					env.callArgs = append(env.callArgs, e.constVal(c))
+				} else {
+					env.callArgs = append(env.callArgs, Val{})
+				}
+			}
+		}
 		if after {
 			if v, ok := in.(ssa.Value); ok {
 				if r, ok := fr.regs[v]; ok {
